@@ -23,7 +23,7 @@ T = {
          "interpreters written for this task (cross-checked against LLVM decode where LLVM has the target); states/keys sampled; no real silicon"),
  "C06": ("exploration", "guard pages + read-only inputs on production objects, ASan+UBSan, MSan with output definedness assertions, junk differential, valgrind memcheck",
          "3.C06", "The whole public API is driven over exhaustive length windows, alignments 0..7, NULL/0, aliasing, with buffers abutting PROT_NONE pages and poisoned surroundings; any fault, sanitizer report, canary change, input modification or junk-dependent output is a violation.",
-         "red-zone tools miss intra-object overflows; lengths >= 2^32 not run"),
+         "red-zone tools miss intra-object overflows; lengths >= 2^32 are run by the thorough tiers of C01-C04, C08-C12, C14, C15, C17 (guarded sparse mappings), not here"),
  "C07": ("exploration", "memcheck as secret-taint tracker (ctgrind, incl. OS-provided entropy) on -O2/-O3 gcc/clang objects + instruction/address trace equality under lackey between markers",
          "3.C07", "Secrets are marked undefined; any branch/address/syscall depending on them inside a library frame is a report; a leaky positive control must fire on every run. Trace-equivalence groups cross-check on concrete executions.",
          "instruction-latency channels invisible; assembly backends not covered here; valgrind's propagation rules trusted"),
